@@ -22,6 +22,9 @@ pub enum Dev {
     Transport(Codec),
     /// every single-bit flip of the encoded proof: decode must fail or verification must fail
     BitFlip(usize),
+    /// the encoded proof plus a point outside the prime order subgroup (pairs like the honest proof):
+    /// presented through decoder #i (0 bytes, 1 serde_bare, 2 serde_json)
+    AddTorsion(u8),
 }
 
 #[derive(Clone, Debug, PartialEq, Eq, Hash, Serialize, Deserialize)]
@@ -69,7 +72,7 @@ impl<C: Suite> Model for M09<C> {
                 a.push(Dev::OtherKey(j));
             }
         }
-        a.extend([Dev::AddG, Dev::Neg, Dev::Dbl, Dev::Identity, Dev::Repr]);
+        a.extend([Dev::AddG, Dev::Neg, Dev::Dbl, Dev::Identity, Dev::Repr, Dev::AddTorsion(0), Dev::AddTorsion(1), Dev::AddTorsion(2)]);
         for s in SCHEMES {
             a.push(Dev::SigOverPk(s));
         }
@@ -91,7 +94,7 @@ impl<C: Suite> Model for M09<C> {
         format!("{} {} proof_of_possession, deviation {:?}, verify", C::G, self.keys.names[st.k], st.dev)
     }
     fn required_outcomes(&self) -> Vec<String> {
-        vec!["own-key:accept".into(), "other-key:reject".into(), "perturbed:reject".into(), "bitflip:undecodable".into(), "bitflip:decodes-and-rejected".into()]
+        vec!["own-key:accept".into(), "other-key:reject".into(), "perturbed:reject".into(), "bitflip:undecodable".into(), "bitflip:decodes-and-rejected".into(), "torsion:undecodable".into()]
     }
     fn check(&self, st: &St, o: &mut Obs) {
         let g = C::G;
@@ -149,6 +152,20 @@ impl<C: Suite> Model for M09<C> {
                     }
                     want = true;
                 }
+                Dev::AddTorsion(dec) => {
+                    let bytes = rf::torsion_perturbed(&Vec::<u8>::from(&pop)).expect("torsion point");
+                    o.expect(&format!("C09:torsion-perturbation-differs:{}", g), bytes != Vec::<u8>::from(&pop), "different bytes", "same");
+                    let r = guard(|| match dec {
+                        0 => ProofOfPossession::<C>::try_from(bytes.as_slice()).ok(),
+                        1 => serde_bare::from_slice::<ProofOfPossession<C>>(&bytes).ok(),
+                        _ => serde_json::from_str::<ProofOfPossession<C>>(&format!("\"{}\"", hex::encode(&bytes))).ok(),
+                    });
+                    proof = r.ok().flatten();
+                    if proof.is_none() {
+                        o.outcome("torsion:undecodable");
+                        return;
+                    }
+                }
                 Dev::BitFlip(b) => {
                     let mut bytes = Vec::<u8>::from(&pop);
                     bytes[b / 8] ^= 0x80 >> (b % 8);
@@ -172,6 +189,7 @@ impl<C: Suite> Model for M09<C> {
             None => o.outcome(if acc { "own-key:accept" } else { "own-key:reject" }),
             Some(Dev::OtherKey(_)) => o.outcome(if acc { "other-key:accept" } else { "other-key:reject" }),
             Some(Dev::BitFlip(_)) => o.outcome(if acc { "bitflip:decodes-and-accepted" } else { "bitflip:decodes-and-rejected" }),
+            Some(Dev::AddTorsion(_)) => o.outcome(if acc { "torsion:decodes-and-accepted" } else { "torsion:decodes-and-rejected" }),
             Some(Dev::Repr) | Some(Dev::Transport(_)) => o.outcome(if acc { "relative:accept" } else { "relative:reject" }),
             _ => o.outcome(if acc { "perturbed:accept" } else { "perturbed:reject" }),
         }
